@@ -2,7 +2,7 @@
    This file holds only the property theorems, each closed by `exact`. *)
 From RxModel Require Import Derived.
 From RxSpec Require Import DerivedSpec.
-From RxProofs Require Ops1Laws ChainLaws DerivedLaws.
+From RxProofs Require Ops1Laws ChainLaws DerivedLaws BigCounts.
 
 (* Each operator machine, on every well-formed script. *)
 Theorem C03_operator :
@@ -33,7 +33,20 @@ Theorem C03_hot_eq_cold :
   forall (os : list op1) (s : list ev), run_hot os s = run_cold os s.
 Proof. exact ChainLaws.hot_eq_cold. Qed.
 
+(* Counts that no script reaches (the cases' `big`, `big1`, `mid`: usize::MAX, usize::MAX - 1, 2^33 in the crate, 5000 / 4999 /
+   4000 in the model): for a script shorter than both counts the documented function is the same for both. *)
+Theorem C03_count_beyond_the_script :
+  forall mk1 : nat -> op1,
+    (mk1 = OTake \/ mk1 = OSkip \/ mk1 = OTakeLast \/ mk1 = OSkipLast \/ mk1 = OBufferCount) ->
+    forall (n m : nat) (items : list val) (t : term),
+      (length items < n)%nat -> (length items < m)%nat -> spec1 (mk1 n) items t = spec1 (mk1 m) items t.
+Proof. exact BigCounts.count_beyond_the_script. Qed.
+
 Check C03_operator : forall o items t, run_op o (mk items t) = spec1 o items t.
+Check C03_count_beyond_the_script :
+  forall mk1 : nat -> op1,
+    (mk1 = OTake \/ mk1 = OSkip \/ mk1 = OTakeLast \/ mk1 = OSkipLast \/ mk1 = OBufferCount) ->
+    forall n m items t, (length items < n)%nat -> (length items < m)%nat -> spec1 (mk1 n) items t = spec1 (mk1 m) items t.
 Check C03_derived : forall u items t, chain_spec (expand u) (mk items t) = spec_u u items t.
 Check C03_cold_pipeline : forall k us, run_src k us = uchain_spec us (src_spec k).
 Check C03_hot_pipeline : forall us calls,
@@ -41,6 +54,7 @@ Check C03_hot_pipeline : forall us calls,
 Check C03_hot_eq_cold : forall os s, run_hot os s = run_cold os s.
 
 Print Assumptions C03_operator.
+Print Assumptions C03_count_beyond_the_script.
 Print Assumptions C03_derived.
 Print Assumptions C03_cold_pipeline.
 Print Assumptions C03_hot_pipeline.
